@@ -72,6 +72,8 @@ type Run struct {
 	vioSeen    map[string]int
 	notExh     bool
 	flaky      []any
+	known      []knownFinding
+	unknownVio int
 }
 
 func NewRun(prop, tier string) *Run {
@@ -89,6 +91,7 @@ func NewRun(prop, tier string) *Run {
 	r := &Run{Property: prop, Tier: tier, Seed: seed, Workers: w, Start: time.Now(),
 		nontrivial: map[[16]byte]struct{}{}, outcomes: map[string]int64{}, sampleCap: 12,
 		bounds: map[string]any{}, extra: map[string]any{}, vioSeen: map[string]int{}}
+	r.known = loadKnown()
 	budget := 10 * time.Minute
 	if tier == "thorough" {
 		budget = 45 * time.Minute
@@ -173,8 +176,19 @@ func (r *Run) Violate(driver, class string, c any, expected, got, note string) {
 	if r.vioSeen[class] > 3 {
 		return
 	}
-	r.violations = append(r.violations, Violation{Property: r.Property, Driver: driver, Class: class,
-		Case: raw, Expected: expected, Got: got, Note: note})
+	v := Violation{Property: r.Property, Driver: driver, Class: class,
+		Case: raw, Expected: expected, Got: got, Note: note}
+	r.violations = append(r.violations, v)
+	isKnown := false
+	for _, k := range r.known {
+		if k.matches(v) {
+			isKnown = true
+			break
+		}
+	}
+	if !isKnown {
+		r.unknownVio++
+	}
 }
 
 // Seen reports how many violations of class were reported so far (recorded
@@ -196,9 +210,12 @@ func (r *Run) CountOnly(class string) {
 // Saturated reports that enough violations were recorded that exploring
 // further adds nothing: the run is going to exit 1 anyway.
 func (r *Run) Saturated() bool {
+	if os.Getenv("VERIF_NO_SATURATE") != "" {
+		return false
+	}
 	r.mu.Lock()
 	defer r.mu.Unlock()
-	return len(r.violations) >= 40
+	return r.unknownVio >= 40 // known findings never saturate a run
 }
 
 func (r *Run) ViolationCount() int {
@@ -270,9 +287,9 @@ func Glob(p, s string) bool {
 
 // Finish writes evidence and returns the process exit code.
 func (r *Run) Finish() int {
-	known := loadKnown()
 	r.mu.Lock()
 	defer r.mu.Unlock()
+	known := r.known
 
 	var unknown []Violation
 	knownHit := map[string]int{}
